@@ -520,6 +520,148 @@ def ck7(p, res):
     return n
 
 
+CAP_CALLS = ("offset_unary", "offset_binary", "max_k", "set_meta_checked", "max_size")
+
+
+def ck8(p, res):
+    """log_delta + log_budget never exceeds the stored precision: an out-of-place operation writes metadata taken from its source over a destination of its own size, so it has to
+    consult the destination's capacity (offset_unary / offset_binary / max_k / set_meta_checked on dst, directly, in a helper that receives dst, or in the operation it delegates dst to)"""
+    memo = {}
+
+    def consults(f, l, depth=0):
+        key = (f.uid, l)
+        if key in memo:
+            return memo[key]
+        memo[key] = False
+        if depth > 6:
+            return False
+        flow = Flow(f, transparent=T + ("to_mut", "to_ref"))
+        out = False
+        for bi, t in f.calls():
+            d = f.callee_def(t) or {}
+            nm = d.get("n", "")
+            for ai, a in enumerate(t["a"]):
+                if a[0] not in ("c", "m"):
+                    continue
+                if not any(r[0] == "param" and r[1] == l for r in flow.op_roots(a)):
+                    continue
+                if nm in CAP_CALLS:
+                    out = True
+                else:
+                    for x in p.targets(f, t):
+                        g2 = p.fns.get(x)
+                        if g2 is not None and g2.uid.startswith("poulpy_ckks::") and g2.blocks and ai + 1 <= g2.argc:
+                            if consults(g2, ai + 1, depth + 1):
+                                out = True
+            if out:
+                break
+        memo[key] = out
+        return out
+
+    n = 0
+    for f in sorted(p.lib_fns(), key=lambda x: x.uid):
+        if not f.uid.startswith("poulpy_ckks::leveled::default") or f.kind == "Closure" or "_into" not in f.name:
+            continue
+        dst = None
+        srcs = []
+        for l in range(1, f.argc + 1):
+            ty = f.local_ty(l)
+            if "CKKSCiphertext" in ty["s"]:
+                if ty.get("r", "").startswith("&mut") and dst is None:
+                    dst = l
+                else:
+                    srcs.append(l)
+        if dst is None or not srcs:
+            continue
+        # does the function store metadata into dst, or delegate dst?  (accumulating forms read dst's own metadata: they consult it by construction)
+        n += 1
+        if consults(f, dst):
+            res.ok("CK-8", {"fn": f.pretty, "dst": f.param_names().get(dst)} if n % 10 == 1 else None)
+        else:
+            res.bad("CK-8", f.pretty, "capacity-ignored:%s" % f.param_names().get(dst, "dst"),
+                    "%s writes its result and metadata into `%s` without ever consulting the destination's capacity (offset_unary / offset_binary / max_k / set_meta_checked): with a "
+                    "destination smaller than the source it returns Ok with log_delta + log_budget > max_k" % (f.pretty, f.param_names().get(dst, "dst")), site=f.where())
+    return n
+
+
+def _sign(x):
+    return (x > 0) - (x < 0)
+
+
+def ck9(p, res):
+    """exponent balance of ct x ct multiplication.  A ciphertext with metadata (log_delta, log_budget) holds m * 2^-log_budget on the torus; the tensor product scaled by
+    2^cnv_offset therefore holds m_a m_b * 2^(cnv_offset - budget_a - budget_b), and the metadata written for it claims m_a m_b * 2^-res_log_budget.  Hence, wherever the
+    derivation does not take its error exit,   cnv_offset + res_log_budget == budget_a + budget_b   with (budget_a, budget_b) the values handed to checked_mul_ct_log_budget.
+    Both sides are piecewise linear in the operands' metadata and the destination capacity; the identity is decided on the extracted expressions (pwl.Eval)."""
+    from . import pwl
+    n = 0
+    for f in sorted(p.lib_fns(), key=lambda x: x.uid):
+        if not f.uid.startswith("poulpy_ckks::leveled") or f.kind == "Closure":
+            continue
+        mc = [(bi, t) for bi, t in f.calls() if (f.callee_def(t) or {}).get("n") == "checked_mul_ct_log_budget" and len(t["a"]) == 5]
+        if len(mc) != 1:
+            continue
+        g = CFG(f)
+        if mc[0][0] not in g.reach:
+            continue
+        sym = Sym(f, Flow(f))
+        ba, bb_, da, db = (sym.operand(a) for a in mc[0][1]["a"][1:5])
+        # shape A: returns Ok((budget, delta, offset)); shape B: hands the offset to the tensor product and stores the budget in dst.meta
+        off = bud = None
+        shape = None
+        for bi in sorted(g.reach):
+            for st in f.blocks[bi]["s"]:
+                if st[0] == "A" and st[1] == [0] and st[2]["k"] == "Agg" and st[2].get("variant") == "Ok" and st[2]["o"]:
+                    o = st[2]["o"][0]
+                    if o[0] in ("c", "m") and len(o[1]) == 1:
+                        for d in sym.flow.defs.get(o[1][0], []):
+                            if d[0] != "call" and d[4]["k"] == "Agg" and d[4].get("ak") == "Tuple" and len(d[4]["o"]) == 3:
+                                bud, off = sym.operand(d[4]["o"][0]), sym.operand(d[4]["o"][2])
+                                shape = "helper"
+        if shape is None:
+            tens = [(bi, t) for bi, t in f.calls() if (f.callee_def(t) or {}).get("n", "").startswith(("glwe_tensor_apply", "glwe_tensor_square_apply")) and bi in g.reach and len(t["a"]) > 2]
+            offs = {sym.operand(t["a"][1]).key() for bi, t in tens}
+            stores = []
+            for bi in sorted(g.reach):
+                for st in f.blocks[bi]["s"]:
+                    mf = meta_store_fields(f, st)
+                    if mf is not None and len(mf) == 2 and mf[1] == "log_budget" and st[2]["k"] == "Use":
+                        stores.append(sym.operand(st[2]["o"][0]))
+            if len(offs) == 1 and stores and all(x.key() == stores[0].key() for x in stores):
+                off, bud = Poly(dict(list(offs)[0])), stores[0]
+                shape = "inline"
+        if shape is None:
+            continue
+        n += 1
+        classes = set()
+        good = 0
+        bad = None
+        for val in pwl.valuations():
+            ev = pwl.Eval(p, val)
+            ev.syms[f.uid] = sym
+            try:
+                vo, vb = ev.poly(off), ev.poly(bud)
+                xa, xb, ya, yb = ev.poly(ba), ev.poly(bb_), ev.poly(da), ev.poly(db)
+            except pwl.ErrPath:
+                continue
+            if min(xa, xb, ya, yb, vo, vb) < 0:
+                continue
+            good += 1
+            classes.add((_sign(xa - xb), _sign(ya - yb), _sign(xa + ya - xb - yb)))
+            if vo + vb != xa + xb and bad is None:
+                bad = {"budget_a": xa, "budget_b": xb, "delta_a": ya, "delta_b": yb, "cnv_offset": vo, "res_log_budget": vb}
+        if good < 500 or len(classes) < 13:
+            res.undec("CK-9", "%s: only %d admissible valuations in %d ordering classes" % (f.pretty, good, len(classes)))
+        elif bad:
+            res.bad("CK-9", f.pretty, "exponent-balance:%s" % shape,
+                    "%s: cnv_offset + res_log_budget != log_budget(a) + log_budget(b), e.g. %s gives %d + %d != %d + %d: the product is returned with metadata that does not describe its "
+                    "scale (the decrypted value is off by a power of two) whenever the operand with the larger log_delta has the smaller log_budget"
+                    % (f.pretty, bad, bad["cnv_offset"], bad["res_log_budget"], bad["budget_a"], bad["budget_b"]), site=f.where(mc[0][1]["l"]), detail=bad)
+        else:
+            res.ok("CK-9", {"fn": f.pretty, "shape": shape, "valuations": good, "ordering_classes": len(classes)})
+    return n
+
+
 def run(res, tier):
     res.level = "other"
     res.explanation = ("Metadata-write and error-path discipline of the CKKS layer decided on MIR: who may write CKKSMeta, budget/precision subtractions guarded by a dominating comparison of the "
@@ -532,6 +674,8 @@ def run(res, tier):
     res.rule("CK-4", "every `*_into*` operation defines dst.meta.log_delta and dst.meta.log_budget (or delegates dst to a function that does) on every success return")
     res.rule("CK-6", "the parameter derivation of ct x ct multiplication (result metadata, convolution offset) is invariant under exchanging the operands a and b (min/max commutative, helper results symmetric)")
     res.rule("CK-7", "a core operation asserting k.div_ceil(base2k) == x.size() is not handed (x, x.effective_k()) without the call site establishing the relation")
+    res.rule("CK-8", "every out-of-place operation consults the destination's capacity (offset_unary / offset_binary / max_k / set_meta_checked) before storing source-derived metadata")
+    res.rule("CK-9", "ct x ct multiplication: cnv_offset + res_log_budget == log_budget(a) + log_budget(b) on every non-error valuation (piecewise-linear identity over the extracted expressions)")
     res.rule("CK-5", "an `==` fast path followed by `<`/`<=` branches compares the same pair of quantities")
     res.assumptions = ["poulpy-core shape asserts are outside this property", "metadata on Err paths is not required to be untouched"]
     cfgs = ["avx-dev"] if tier == "quick" else ["avx-dev", "ref-dev"]
@@ -550,6 +694,10 @@ def run(res, tier):
         res.floor("CK-5", "comparison chains", n5, 2)
         n7 = ck7(p, res)
         res.floor("CK-7", "core size preconditions reached with metadata-derived precision", n7, 6)
+        n8 = ck8(p, res)
+        res.floor("CK-8", "out-of-place operations with a source ciphertext", n8, 20)
+        n9 = ck9(p, res)
+        res.floor("CK-9", "ct x ct offset derivations", n9, 2)
         n6 = ck6(p, res)
         res.floor("CK-6", "ct x ct parameter derivations", n6, 1)
         res.fn_count += n4
